@@ -22,8 +22,13 @@ def gen_grid(rng, length, kind):
     elif kind == 4:                                                  # uniform up to a relative jitter of 1e-6 of the spacing: NOT uniform
         x = np.linspace(-1, 1, length)
         x = x + 1e-6 * (x[1] - x[0]) * rng.uniform(-1, 1, size=length)
-    else:                                                            # non-uniform with spacings of order 1e-9
+    elif kind == 5:                                                  # non-uniform with spacings of order 1e-9
         x = 1e-9 * np.cumsum(rng.uniform(0.5, 1.5, size=length))
+    elif kind == 6:                                                  # structured: the steps alternate h1, h2, h1, h2, ...
+        h1, h2 = float(rng.uniform(0.05, 0.2)), float(rng.uniform(0.25, 0.5))
+        x = np.cumsum([h1 if i % 2 else h2 for i in range(length)])
+    else:                                                            # structured: mirror-symmetric about its centre (Chebyshev-like)
+        x = -np.cos(np.pi * (np.arange(length) + 0.5) / length)
     return np.asarray(x, dtype=float)
 
 
@@ -35,7 +40,7 @@ def search(ctx, N):
         m = int(rng.integers(1, 3)) if t % 3 else int(rng.integers(1, 5))
         mm = n // 2 + m
         length = int(rng.integers(2 * mm + 2, 2 * mm + 12))
-        x = gen_grid(rng, length, int(rng.integers(0, 6)))
+        x = gen_grid(rng, length, int(rng.integers(0, 8)))
         deg = int(rng.integers(0, 2 * mm + 1)) if t % 2 else 2 * mm - int(rng.integers(0, 2))      # every second case at (or just below) the top degree 2 (n//2 + m)
         coef = [Fraction(int(c)) for c in rng.integers(-5, 6, size=deg + 1)]
         X = [Fraction(float(v)) for v in x]
